@@ -523,6 +523,51 @@ func EmptyNthSlice(root any, n int, exemptTypes ...string) bool {
 	return true
 }
 
+// NilNthElement replaces the n-th list element (walk order) that is a non-nil pointer to a
+// named struct of package pkgPath - directly or inside an interface - by a typed nil
+// pointer of the same type; false when there are fewer.
+func NilNthElement(root any, n int, pkgPath string) bool {
+	idx := 0
+	var cut *reflect.Value
+	var repl reflect.Value
+	ofPkg := func(t reflect.Type) bool {
+		return t.Kind() == reflect.Pointer && t.Elem().Kind() == reflect.Struct && t.Elem().Name() != "" && t.Elem().PkgPath() == pkgPath
+	}
+	heapWalk(reflect.ValueOf(root), nil, map[uintptr]bool{}, nil, func(s reflect.Value) {
+		for i := 0; i < s.Len(); i++ {
+			e := s.Index(i)
+			if !e.CanSet() {
+				continue
+			}
+			var r reflect.Value
+			switch e.Kind() {
+			case reflect.Pointer:
+				if e.IsNil() || !ofPkg(e.Type()) {
+					continue
+				}
+				r = reflect.Zero(e.Type())
+			case reflect.Interface:
+				if e.IsNil() || !ofPkg(e.Elem().Type()) || e.Elem().IsNil() {
+					continue
+				}
+				r = reflect.Zero(e.Elem().Type())
+			default:
+				continue
+			}
+			if idx == n {
+				c := e
+				cut, repl = &c, r
+			}
+			idx++
+		}
+	}, nil)
+	if cut == nil {
+		return false
+	}
+	cut.Set(repl)
+	return true
+}
+
 // ReachablePointers: every pointer to a named struct type of package pkgPath reachable
 // from root, each once.
 func ReachablePointers(root any, pkgPath string) []any {
